@@ -30,6 +30,8 @@ pub enum DnOp {
     CloneTo { from: usize, to: usize },
     Eq { a: usize, b: usize },
     New { slot: usize },
+    /// remove the first attribute and push it back with the same value: same content, new order
+    Rotate { slot: usize },
     Encode { slot: usize, how: EncodeHow },
 }
 
@@ -129,13 +131,11 @@ impl Engine for DnSim {
                 15 => DnOp::Iter { slot },
                 16 => DnOp::CloneTo { from: slot, to: r.usize(slots) },
                 17 => DnOp::Eq { a: slot, b: r.usize(slots) },
-                18 => {
-                    if r.chance(1, 4) {
-                        DnOp::New { slot }
-                    } else {
-                        DnOp::Iter { slot }
-                    }
-                }
+                18 => match r.below(4) {
+                    0 => DnOp::New { slot },
+                    1 => DnOp::Iter { slot },
+                    _ => DnOp::Rotate { slot },
+                },
                 _ => DnOp::Encode {
                     slot,
                     how: match r.below(5) {
@@ -297,6 +297,7 @@ impl Engine for DnSim {
                     | DnOp::Remove { slot, .. }
                     | DnOp::Get { slot, .. }
                     | DnOp::Iter { slot }
+                    | DnOp::Rotate { slot }
                     | DnOp::New { slot } => *slot = 0,
                     DnOp::Encode { slot, how } => {
                         *slot = 0;
@@ -334,6 +335,7 @@ fn op_tag(op: &DnOp) -> String {
         DnOp::CloneTo { from, to } => format!("clone {from}->{to}"),
         DnOp::Eq { a, b } => format!("eq {a} {b}"),
         DnOp::New { slot } => format!("new[{slot}]"),
+        DnOp::Rotate { slot } => format!("rotate[{slot}]"),
         DnOp::Encode { slot, how } => format!("encode[{slot}] {:?}", how),
     }
 }
@@ -401,6 +403,16 @@ fn apply(
         DnOp::New { slot } => {
             real[*slot] = rcgen::DistinguishedName::new();
             model[*slot].clear();
+        }
+        DnOp::Rotate { slot } => {
+            if !model[*slot].is_empty() {
+                let (ty, val) = model[*slot].remove(0);
+                if !real[*slot].remove(ty.build()) {
+                    return fail("dn-remove-result", "remove of a present attribute returned false".into());
+                }
+                real[*slot].push(ty.build(), val.build());
+                model[*slot].push((ty, val));
+            }
         }
         DnOp::Encode { slot, how } => {
             o.count("encodes", 1);
